@@ -78,6 +78,8 @@ fn main() {
         "C11" => vh::props::c11::run(&mut rep, thorough),
         "dbgctx" => { dbg_ctx(); return; }
         "C10" => vh::props::c10::run(&mut rep, thorough),
+        "C17" => vh::props::c17::run(&mut rep, thorough),
+        "C18" => vh::props::c18::run(&mut rep, thorough),
         "smoke" => {
             smoke();
             return;
